@@ -712,7 +712,7 @@ pub fn c05(tier: Tier) -> i32 {
         json!({
             "evaluations": evaluations,
             "distinct_nontrivial": distinct,
-            "rule": format!("S1 every string of length <= {} over the 22-symbol meta alphabet; every expression of the program space; S2 the bound family (21 bound spellings x 8 bodies x 5 contexts + ordered pairs); S3 the depth family (nesting / width / flag runs / literal lengths up to 10^4, 10^5 in the thorough tier) in isolated worker processes with address-space and CPU limits; on every built glob every public operation and 6 paths; distinct_nontrivial = distinct outcome kinds (Ok, error messages, panic sites)", l),
+            "rule": format!("S1 every string of length <= {} over the 22-symbol meta alphabet; every expression of the program space; S2 the bound family (21 bound spellings x 8 bodies x 5 contexts + ordered pairs); S3 the depth family (nesting / width / flag runs / literal lengths up to 10^4, 10^5 in the thorough tier) in isolated worker processes with address-space and CPU limits; S5 the combinator family (every combinator tree of depth <= 3 and arity 0..2 over no pattern / text / compiled / owned leaves: construction, queries, matching, not(), any of it); on every built glob every public operation and 6 paths; distinct_nontrivial = distinct outcome kinds (Ok, error messages, panic sites)", l),
             "samples": [{"string": nth_string(&S1_ALPHABET, total - 1)}, {"string": nth_string(&S1_ALPHABET, total / 2)}, specs[0].clone(), specs[specs.len() - 1].clone()],
             "exhaustive": true,
         }),
@@ -782,6 +782,12 @@ impl Comb {
             },
         }
     }
+    fn has_leaf(&self) -> bool {
+        match self {
+            Comb::Any(v) => v.iter().any(|c| c.has_leaf()),
+            _ => true,
+        }
+    }
     /// what the union of the leaves says (None when a leaf does not build)
     fn union_matches(&self, path: &str) -> Option<bool> {
         match self {
@@ -838,6 +844,22 @@ fn run_comb(comb: &Comb) -> Result<(), String> {
 }
 
 fn combinator_family(rep: &Report, tier: Tier) -> u64 {
+    let all = combinator_trees(tier);
+    all.par_iter().for_each(|comb| {
+        if let Err(what) = run_comb(comb) {
+            rep.alarm(Alarm {
+                class: None,
+                key: format!("combinator {}", comb.describe()),
+                msg: format!("combinator {}: PANIC {}", comb.describe(), what),
+                case: json!({"kind": "combinator", "comb": comb.to_json()}),
+            });
+        }
+    });
+    all.len() as u64
+}
+
+/// The trees of the combinator family (shared by C05, C07 and C11).
+fn combinator_trees(tier: Tier) -> Vec<Comb> {
     let texts: Vec<&'static str> = tier.pick(vec!["", "a", "a/**", "<a:0,1>"], vec!["", "a", "a/**", "<a:0,1>", "**/a", "/a", "{a,b}"]);
     let mut level0: Vec<Comb> = vec![];
     for t in &texts {
@@ -858,8 +880,6 @@ fn combinator_family(rep: &Report, tier: Tier) -> u64 {
         out
     };
     let level1 = next(&level0);
-    // level 2 over a thinned level 1 (every shape, the first few leaves): the tree shapes are what
-    // matters for totality
     let thin: Vec<Comb> = level1.iter().filter(|c| match c {
         Comb::Any(v) => v.iter().all(|x| matches!(x, Comb::Text("") | Comb::Text("a") | Comb::Compiled("a/**") | Comb::Text("<a:0,1>"))),
         _ => true,
@@ -867,17 +887,86 @@ fn combinator_family(rep: &Report, tier: Tier) -> u64 {
     let level2 = next(&thin);
     let mut all = level1;
     all.extend(level2);
-    all.par_iter().for_each(|comb| {
-        if let Err(what) = run_comb(comb) {
-            rep.alarm(Alarm {
-                class: None,
-                key: format!("combinator {}", comb.describe()),
-                msg: format!("combinator {}: PANIC {}", comb.describe(), what),
-                case: json!({"kind": "combinator", "comb": comb.to_json()}),
-            });
+    all
+}
+
+/// C07 on the combinator family: a combinator matches exactly the union of its leaves (none, for a
+/// combinator of no patterns), on every path of length <= 3 over {a, b, /}. C11 on the same family:
+/// a combinator that reports invariant text matches that text and nothing else among those paths.
+/// `which` selects the law ("C07" or "C11"); returns the number of trees judged.
+pub fn combinator_laws(rep: &Report, tier: Tier, which: &str) -> u64 {
+    let mut paths = vec![String::new()];
+    let mut level = vec![String::new()];
+    for _ in 0..3 {
+        let mut next = vec![];
+        for s in &level {
+            for ch in ['a', 'b', '/'] {
+                let mut t = s.clone();
+                t.push(ch);
+                next.push(t);
+            }
+        }
+        paths.extend(next.iter().cloned());
+        level = next;
+    }
+    let trees = combinator_trees(tier);
+    trees.par_iter().for_each(|comb| {
+        let Ok(Ok(a)) = guard(|| comb.build()) else { return };
+        if which == "C07" {
+            for p in &paths {
+                let Some(union) = comb.union_matches(p) else { return };
+                let real = a.is_match(p.as_str());
+                if real != union {
+                    rep.alarm(Alarm {
+                        class: None,
+                        key: format!("combinator union {}", comb.describe()),
+                        msg: format!("{} is not the union of its patterns on path {:?}: combinator={} union={}", comb.describe(), p, real, union),
+                        case: json!({"kind": "combinator-law", "law": "C07", "comb": comb.to_json(), "path": p}),
+                    });
+                    return;
+                }
+            }
+        }
+        else if let wax::query::TextVariance::Invariant(t) = a.text() {
+            let t = t.to_string();
+            for p in paths.iter().chain(std::iter::once(&t)) {
+                let real = a.is_match(p.as_str());
+                if real != (*p == t) {
+                    rep.alarm(Alarm {
+                        // recorded finding: a combinator without any pattern reports the text ""
+                        // and matches nothing (identified by the tree having no leaf at all and
+                        // the witness being the reported text itself)
+                        class: if !comb.has_leaf() && *p == t && t.is_empty() { Some("patternless-combinator-invariant-text".into()) } else { None },
+                        key: format!("combinator text {}", comb.describe()),
+                        msg: format!("{} reports invariant text {:?} but is_match({:?}) = {}", comb.describe(), t, p, real),
+                        case: json!({"kind": "combinator-law", "law": "C11", "comb": comb.to_json(), "path": p}),
+                    });
+                    return;
+                }
+            }
         }
     });
-    all.len() as u64
+    trees.len() as u64
+}
+
+pub fn replay_combinator_law(case: &Value) -> bool {
+    let comb = Comb::from_json(&case["comb"]);
+    let path = case["path"].as_str().unwrap_or("");
+    let Ok(a) = comb.build() else {
+        println!("{} does not build", comb.describe());
+        return false;
+    };
+    let real = a.is_match(path);
+    println!("{}: is_match({:?}) = {}, union of the patterns = {:?}, text() = {:?}", comb.describe(), path, real, comb.union_matches(path), a.text());
+    if case["law"].as_str() == Some("C07") {
+        comb.union_matches(path).map_or(false, |u| u != real)
+    }
+    else {
+        match a.text() {
+            wax::query::TextVariance::Invariant(t) => real != (path == t.to_string()),
+            _ => false,
+        }
+    }
 }
 
 pub fn replay_combinator(case: &Value) -> bool {
